@@ -13,9 +13,9 @@
               `Bits.__add__` (bits.py:200-215), `BitArray.__hash__ = None` (bitarray_.py:73), the ordering
               methods (bits.py:187-198).
 
-  A `Store` keeps what the code keeps: the raw bitarray, `modified_length`, and the bit-endianness of the
-  bitarray (a user-supplied `bitarray(endian='little')` keeps its endianness inside the store; indexing and `==`
-  do not see it, `tobytes` does).
+  A `Store` keeps what the code keeps: the raw bitarray and `modified_length`.  Every store is big-endian
+  (`BitStore.__init__` converts a source bitarray with `endian='big'`, bitstore.py:46-51, fix 0aafa20; `frombytes`
+  and `frombuffer` create big-endian bitarrays), so `tobytes` has one meaning.
 -/
 import BitstringModel.Model.Basic
 namespace BM.C13
@@ -25,20 +25,16 @@ namespace BM.C13
 /-- One byte of `tobytes`: the chunk (≤ 8 bits) padded with zero bits on the right. -/
 def padByte (c : Bits) : Bits := c ++ List.replicate (8 - c.length) false
 
-/-- Value of a byte; in a little-endian bitarray the bit at index `j` of the chunk has weight `2^j`. -/
-def byteVal (little : Bool) (c : Bits) : Nat :=
-  bitsToNat (if little then (padByte c).reverse else padByte c)
+/-- Value of a byte (big-endian bitarray: the first bit of the chunk is the most significant). -/
+def byteVal (c : Bits) : Nat := bitsToNat (padByte c)
 
-def toBytesAux (little : Bool) : Nat → Bits → List Nat
+def toBytesAux : Nat → Bits → List Nat
   | 0, _ => []
   | _ + 1, [] => []
-  | f + 1, x :: xs => byteVal little ((x :: xs).take 8) :: toBytesAux little f ((x :: xs).drop 8)
+  | f + 1, x :: xs => byteVal ((x :: xs).take 8) :: toBytesAux f ((x :: xs).drop 8)
 
-/-- `bitarray.tobytes()` for a bitarray of the given bit-endianness (fuel = length is always enough). -/
-def toBytesE (little : Bool) (s : Bits) : List Nat := toBytesAux little s.length s
-
-/-- `tobytes()` of an ordinary (big-endian) bitstring: zero-padded bytes. -/
-def toBytes (s : Bits) : List Nat := toBytesE false s
+/-- `bitarray.tobytes()` of a big-endian bitarray: zero-padded bytes (fuel = length is always enough). -/
+def toBytes (s : Bits) : List Nat := toBytesAux s.length s
 
 /-- What `hash()` is applied to: `(bytes, length)`.  The Python hash of such a tuple is a function of its
     value (trusted); so hashes are equal when keys are equal, and keys are what is compared. -/
@@ -63,11 +59,10 @@ def eqSpec (a b : Bits) : Bool := decide (a = b)
 
 /-! ## ALG: the store -/
 
-/-- `BitStore`: `_bitarray` (bits by index), `modified_length`, and the bitarray's bit-endianness. -/
+/-- `BitStore`: `_bitarray` (bits by index) and `modified_length`. -/
 structure Store where
   raw : Bits
   modLen : Option Nat := none
-  little : Bool := false
   deriving Repr, DecidableEq
 
 /-- `BitStore.__len__` (bitstore.py:275). -/
@@ -90,32 +85,33 @@ def Store.bits (s : Store) : Bits :=
 /-- `BitStore.tobytes` (bitstore.py:84-87). -/
 def Store.tobytes (s : Store) : List Nat :=
   match s.modLen with
-  | some m => toBytesE s.little (rawSlice s.raw none (some (m : Int)))
-  | none => toBytesE s.little s.raw
+  | some m => toBytes (rawSlice s.raw none (some (m : Int)))
+  | none => toBytes s.raw
 
 /-- `BitStore.__eq__` (bitstore.py:115): `self._bitarray == other._bitarray`
-    (bitarray equality: same length, same bit at every index; endianness is not compared). -/
+    (bitarray equality: same length, same bit at every index). -/
 def Store.eq (a b : Store) : Bool := decide (a.raw = b.raw)
 
 /-- `BitStore(bitarray)` / `_copy()` (bitstore.py:46-50, 198-200): a fresh store around a copy of the bitarray. -/
-def Store.copyRaw (s : Store) : Store := { raw := s.raw, modLen := none, little := s.little }
+def Store.copyRaw (s : Store) : Store := { raw := s.raw, modLen := none }
 
 /-- `BitStore.frombytes`: big-endian bits of each byte. -/
 def bytesToBits (b : List Nat) : Bits := b.flatMap (natToBits 8)
 
 def Store.frombytes (b : List Nat) : Store := { raw := bytesToBits b }
 
-/-- `BitStore.frombuffer(buffer, length)` (bitstore.py:61-79).  When only part of the buffer is wanted the part
-    is read into memory and `modified_length` is dropped (fix 39ce472); `modified_length` survives only when it
-    equals the buffer length. -/
+/-- `BitStore.frombuffer(buffer, length)` (bitstore.py:63-81).  When only part of the buffer is wanted the part
+    is read into memory (fix 39ce472); in every case `modified_length` is reset to None afterwards (fix ccb64df),
+    so no constructor leaves a `modified_length` behind — the field and the code that honours it
+    (`__len__`, `tobytes`, the msb0 slices) still exist and stay modelled. -/
 def Store.frombuffer (buf : Bits) (length : Option Int) : Except Err Store :=
   match length with
   | none => .ok { raw := buf }
   | some m =>
     if m < 0 then .error .value
     else if m > (buf.length : Int) then .error .value
-    else if m < (buf.length : Int) then .ok { raw := rawSlice buf none (some m) }
-    else .ok { raw := buf, modLen := some m.toNat }
+    else if m < (buf.length : Int) then .ok { raw := rawSlice buf none (some m), modLen := none }
+    else .ok { raw := buf, modLen := none }
 
 /-- The invariant every constructor establishes: `modified_length`, when present, is the buffer length. -/
 def Store.wf (s : Store) : Prop := ∀ m, s.modLen = some m → m = s.raw.length
@@ -135,9 +131,8 @@ instance (s : Store) : Decidable s.wf := by
 def Store.getSliceMsb0 (s : Store) (start stop : Option Int) : Store :=
   match s.modLen with
   | some m =>
-    { raw := rawSlice s.raw (some (Py.sliceIndices start stop 1 m).1) (some (Py.sliceIndices start stop 1 m).2.1),
-      little := s.little }
-  | none => { raw := rawSlice s.raw start stop, little := s.little }
+    { raw := rawSlice s.raw (some (Py.sliceIndices start stop 1 m).1) (some (Py.sliceIndices start stop 1 m).2.1) }
+  | none => { raw := rawSlice s.raw start stop }
 
 /-- `getslice_withstep_lsb0` (bitstore.py:214-217) with `offset_slice_indices_lsb0` (bitstore.py:21-38) for a
     key without step: `start, stop, step = key.indices(len)`; `last = start + ((stop-1-start)//step)*step`;
@@ -147,19 +142,18 @@ def Store.getSliceLsb0 (s : Store) (start stop : Option Int) : Store :=
   let st := (Py.sliceIndices start stop 1 s.len).1
   let sp := (Py.sliceIndices start stop 1 s.len).2.1
   let last := st + ((sp - 1 - st) / 1) * 1
-  { raw := rawSlice s.raw (some (n - last - 1)) (some (n - st)), little := s.little }
+  { raw := rawSlice s.raw (some (n - last - 1)) (some (n - st)) }
 
 def Store.getSlice (lsb0 : Bool) (s : Store) (start stop : Option Int) : Store :=
   if lsb0 then s.getSliceLsb0 start stop else s.getSliceMsb0 start stop
 
 /-- `Bits.__add__` on two objects of the same class (bits.py:200-215), store level: copy the longer operand,
-    add the other on the proper side.  Either way the new bitarray starts as a copy of (or is prepended by a copy
-    of) the LEFT operand, whose endianness it therefore has. -/
+    add the other on the proper side. -/
 def Store.add (a b : Store) : Store :=
   if b.len ≤ a.len then
-    { raw := a.copyRaw.raw ++ b.raw, little := a.little }      -- s = self._copy(); s._addright(bs)
+    { raw := a.copyRaw.raw ++ b.raw }                 -- s = self._copy(); s._addright(bs)
   else
-    { raw := a.copyRaw.raw ++ b.copyRaw.raw, little := a.little }   -- s._bitstore = bs._copy(); s._addleft(self)
+    { raw := a.copyRaw.raw ++ b.copyRaw.raw }         -- s._bitstore = bs._copy(); s._addleft(self)
 
 /-! ## ALG: objects, promotion, `==`, `!=` -/
 
@@ -192,7 +186,7 @@ inductive Operand where
   | bytes (b : List Nat)                   -- bytes, bytearray, memoryview
   | bytesIO (b : List Nat)
   | fileObj (content : List Nat)           -- io.BufferedReader: _setfile(s.name)
-  | bitarray (little : Bool) (b : Bits)
+  | bitarray (little : Bool) (b : Bits)    -- any bit-endianness: BitStore(s) re-creates it big-endian, bits by index kept
   | array (b : List Nat)                   -- array.array: s.tobytes()
   | iterable (xs : List Elem)
   | integral                               -- numbers.Integral: TypeError
@@ -275,7 +269,7 @@ def promote : Operand → Except Err Store
   | .fileObj c =>
     -- _setfile(s.name): offset None → 0 → frombuffer(mmap, length=None); an empty file cannot be mapped
     if c.isEmpty then .error .value else Store.frombuffer (bytesToBits c) none
-  | .bitarray little b => .ok { raw := b, little := little }
+  | .bitarray _ b => .ok { raw := b }
   | .array b => .ok (Store.frombytes b)
   | .iterable xs => .ok { raw := xs.map Elem.truthy }
   | .integral => .error .type
@@ -349,7 +343,6 @@ def hexField? (s : String) : Option (List Nat) := if s = "-" then some [] else h
 def mkStore (route : String) (bits tail : Bits) : Except Err Store :=
   if route = "file" then Store.frombuffer (bits ++ tail) none
   else if route = "filefull" || route = "filelen" then Store.frombuffer (bits ++ tail) (some (bits.length : Int))
-  else if route = "bale" then .ok { raw := bits, little := true }
   else .ok { raw := bits }
 
 /-- `Cls,route,pos,bits,tail[,…]` -/
